@@ -447,6 +447,79 @@ func serveTCP(seed int64, good, bad, msgs int) string {
 	return b.String()
 }
 
+// ---------------------------------------------------------------- one peer's backlog and the shared read loop
+
+// serveUDPBacklog: peer A sends a burst of well-formed non-confirmable requests to a resource whose handler takes
+// slowMs; peer B then sends one request to a fast resource and must be answered within its deadline (1 s).
+func serveUDPBacklog(slowMs, burst int) string {
+	l, err := coapNet.NewListenUDP("udp4", "127.0.0.1:0")
+	if err != nil {
+		return "rig-error listen"
+	}
+	defer l.Close()
+	r := mux.NewRouter()
+	var slowHandled atomic.Int64
+	_ = r.Handle("/slow", mux.HandlerFunc(func(w mux.ResponseWriter, req *mux.Message) {
+		slowHandled.Add(1)
+		select {
+		case <-time.After(time.Duration(slowMs) * time.Millisecond):
+		case <-w.Conn().Context().Done():
+		}
+		_ = w.SetResponse(codes.Content, message.TextPlain, bytes.NewReader([]byte("slow")))
+	}))
+	_ = r.Handle("/echo", mux.HandlerFunc(func(w mux.ResponseWriter, req *mux.Message) {
+		body, _ := req.ReadBody()
+		_ = w.SetResponse(codes.Content, message.TextPlain, bytes.NewReader(body))
+	}))
+	s := udp.NewServer(options.WithMux(r), options.WithErrors(func(error) {}))
+	served := make(chan error, 1)
+	go func() { served <- s.Serve(l) }()
+	addr := l.LocalAddr().(*net.UDPAddr)
+	time.Sleep(30 * time.Millisecond)
+	a, err := net.DialUDP("udp4", nil, addr)
+	if err != nil {
+		return "rig-error dial"
+	}
+	defer a.Close()
+	for i := 0; i < burst; i++ {
+		m := pool.NewMessage(context.Background())
+		m.SetCode(codes.GET)
+		m.SetToken(message.Token{0xA0, byte(i)})
+		_ = m.SetPath("/slow")
+		m.SetType(message.NonConfirmable)
+		m.SetMessageID(int32(1000 + i))
+		b, _ := m.MarshalWithEncoder(udpcoder.DefaultCoder)
+		_, _ = a.Write(b)
+	}
+	time.Sleep(50 * time.Millisecond)
+	b, err := net.DialUDP("udp4", nil, addr)
+	if err != nil {
+		return "rig-error dial"
+	}
+	defer b.Close()
+	got := 0
+	start := time.Now()
+	_, _ = b.Write(request(9, 1, 7001, true))
+	_ = b.SetReadDeadline(time.Now().Add(time.Second))
+	buf := make([]byte, 2048)
+	if n, err := b.Read(buf); err == nil && n > 4 {
+		got = 1
+	}
+	waited := time.Since(start).Milliseconds()
+	stillServing := 1
+	select {
+	case <-served:
+		stillServing = 0
+	default:
+	}
+	s.Stop()
+	select {
+	case <-served:
+	case <-time.After(5 * time.Second):
+	}
+	return fmt.Sprintf("b got %d/1 waited %d slowhandled %d serving %d", got, waited, slowHandled.Load(), stillServing)
+}
+
 // ---------------------------------------------------------------- DTLS
 
 // firstWriteOnly lets the first datagram (the ClientHello) through and loses everything written afterwards: the
@@ -782,7 +855,9 @@ func TestC10(t *testing.T) {
 			good, _ := strconv.Atoi(f[3])
 			bad, _ := strconv.Atoi(f[4])
 			msgs, _ := strconv.Atoi(f[5])
-			if f[1] == "udp" {
+			if f[1] == "udpbacklog" {
+				fmt.Fprintln(w, serveUDPBacklog(good, bad)) // serve udpbacklog <seed> <slowMs> <burst> <unused>
+			} else if f[1] == "udp" {
 				fmt.Fprintln(w, serveUDP(seed, good, bad, msgs))
 			} else if f[1] == "dtls" {
 				fmt.Fprintln(w, serveDTLS(seed, good, bad, msgs))
